@@ -48,3 +48,8 @@ Proof.
   unfold m1. rewrite firstn_appended by (try exact P0; unfold f1; cbn [TextDefs.mlen m0 length]; lia).
   cbn [TextDefs.mlen TextDefs.mdata m0 Z.to_nat firstn app]. unfold f1, f2, f3, len. cbn [app]. rewrite <- !app_assoc. reflexivity.
 Qed.
+
+(* the side condition of the read-back statement: the payload of three ASCII descriptions is never empty *)
+Lemma conf_payload_ascii_nonempty s1 s2 s3 : Forall (fun b => 0 < b < 128) (s1 ++ s2 ++ s3) -> (length s1 <= 70)%nat -> (length s2 <= 70)%nat -> (length s3 <= 70)%nat ->
+  conf_payload s1 s2 s3 <> [].
+Proof. intros F L1 L2 L3. rewrite (conf_payload_ascii s1 s2 s3 F L1 L2 L3). discriminate. Qed.
